@@ -55,6 +55,11 @@ CHECKS = {
    technique="property-based testing (proptest): generated histories and blame queries; differential against an independent overlay of real `git blame --line-porcelain` and the notes, across all output formats",
    text="For generated histories (renames, merges, rewrites) and generated queries (file x revision x -L/-w/--ignore-rev/--ignore-revs-file x format) the harness computes the expected author of every final line from real git's line-porcelain blame (commit, original line, path in that commit) and the commit's note (own parser), and compares with `--json` and with the author column of the default and --show-prompt formats; porcelain, line-porcelain and incremental outputs must name the same commit per line as git's own output.",
    note="Reference = git 2.39.5 blame. `--json` blames HEAD, so older revisions are reached by detaching HEAD. -M/-C are outside the property's option list. File names containing a newline are excluded here (finding F6n makes their notes unreadable)."),
+ "C19": dict(
+   level="exploration", design="DESIGN.md §2 C19",
+   technique="property-based testing (proptest): generated histories; `git-ai stats --json` of every commit vs independent computations from git numstat, an own -U0 diff parse and the note",
+   text="Every commit (root, ordinary, merge, rewritten) of generated histories enriched with default-ignored files, a binary file, pure deletions, several sessions per file and human-overridden AI lines is checked: diff totals equal git's numstat minus ignored paths; accepted AI lines equal the lines the commit adds that its note lists; human + accepted = added; ai_additions = accepted + mixed <= added; per-tool sums equal the totals.",
+   note="The ignore set is restricted to default patterns with unambiguous glob semantics. Reference numstat is `git show --numstat -z --no-renames` with a clean configuration."),
 }
 
 NOT_YET = "check not built yet (work in progress; see DESIGN.md section 2 for the plan)"
